@@ -99,8 +99,14 @@ CHECKS["C11"] = ("Proof: the payload setter never changes the sector length and 
                  "identity for 1/2/4-sided .fd; save then load is the identity for four well-formed sides in both flavours, so both flavours load "
                  "back the same disk. Tie/oracle: same sources through both tools, no-op adds over tool-made / independent / bundled "
                  "images, DiskSector.dataOfPayload for every length 0..600 (exhaustive).", D, "7 C11")
-CHECKS["C12"] = ("Proof so far: tape create/list lines carry the true size, data-block count and leader ordinal; disk plural rule, per-file "
-                 "counter steps, per-side reset, announced blocks = chain blocks, listed size = content length. Tie/oracle: reports of "
+CHECKS["C12"] = ("Proof: C12.disk_list_report / disk_extract_report — for every image of four consistent sides with ordinary names, --list and "
+                 "--extract (quiet and verbose) print exactly Disk.readReport, a stateless text: per side the separator, 'Side k', one line per live "
+                 "entry in catalog order under its catalog name (verbose: kind, byte size, block count), the closing line of the side (file count or "
+                 "'empty', plural, blocks, percentage), then '---', 'TOTAL' and the totals for an extraction; report_lines_are_the_files — one line "
+                 "per file written, printed size = length of the content read, printed blocks = length of the chain; update_total_is_files_added — "
+                 "the total a create/add announces is the number of files the image gained (for --create: the number a later --extract writes); "
+                 "tape create/list lines carry the true size, data-block count and leader ordinal; plural rule, counter steps. Not proved: the "
+                 "per-side text of create/add reports (compared with the model and parsed). Tie/oracle: reports of "
                  "create/add/list/extract x quiet/verbose parsed into facts and compared with the independent decoding of the archive.", D, "7 C12")
 CHECKS["C13"] = ("Proof: tool's token table = pinned MO5 table, codes >= 0x80 / FFxx, injective, keywords distinct; every keyword typed alone "
                  "(upper or lower case) yields its token, ELSE with colon (finite, whole table, kernel evaluation of the model); file = FF, "
@@ -120,8 +126,10 @@ CHECKS["C19"] = ("Proof (PARTIAL by nature): over the regenerated CLI descriptio
                  "archive, list writes nothing. Interpreter start-up/argparse are outside the model: the finite configuration space of the "
                  "property is enumerated exhaustively at process level with tree diffs. Known finding K1 (create --into) is reported, not hidden.", D, "7 C19")
 CHECKS["C20"] = ("Proof: tape create is a function of the sources' contents only (mode, archive name, rest of the file system irrelevant); "
-                 "list writes nothing, extract only under the destination; the disk injector's image and cursor do not depend on the listener "
-                 "nor on the world beyond the sources. Tie/oracle: paired real runs (twice, quiet/verbose, relative/absolute/dotted paths, "
+                 "list writes nothing, extract only under the destination; C20.performCore_pure — two disk batches on the same image whose sources agree "
+                 "position by position on catalog name, extensions, option and content give the same image or the same failure, whatever the "
+                 "verbosity, archive name and path spelling; same_source_of_spelling / tape_specFile_spelling — the directory part of a source "
+                 "path (relative, absolute, dotted directories) enters neither the disk nor the tape archive. Tie/oracle: paired real runs (twice, quiet/verbose, relative/absolute/dotted paths, "
                  "old target) must be byte-identical; archives and sources hashed and mtime-checked around reads.", D, "7 C20")
 
 PENDING = {}
